@@ -106,6 +106,9 @@ CORPUS = [
      '--theta=0,10,2', '--phi=0,90,1'],
     ['-w', '3,0,0,0,0,0,3,.001', '--excitation-pulse=1', '--load=5', '--attach-load=1,1', '--attach-load=1,1',
      '--theta=0,10,2', '--phi=0,90,1'],
+    ['-w', '4,0,0,0,0,0,5,.001', '-w', '4,0,0,5,0,3,5,.001', '--excitation-pulse=2', '--skin-effect-conductivity=5e7,1',
+     '--skin-effect-conductivity=3e7,2', '--insulation-load=.004,2.5,1', '--insulation-load=.005,3,2',
+     '--theta=0,10,2', '--phi=0,90,1'],
 ]
 
 
